@@ -295,7 +295,7 @@ def run(ctx: lib.Ctx) -> None:
         histories.append((ops, [ha, hb, hc], None))
     histories.append(([('resolve', ref(hc, rng, True)), ('resolve', [[ref(hb, rng, True)]])], [ha, hb, hc], {hc: c, hb: b, ha: a}))
     histories.append(([('resolve', ref(hc, rng, True))], [ha, hb, hc], {hc: c, hb: b}))
-    for _ in range(ctx.n(260, 4000)):
+    for _ in range(ctx.n(260, 2500)):
         ops, probes = gen_history(rng, names)
         preset = None
         if rng.random() < 0.12:   # the same registrations handed over through the constructor
@@ -348,8 +348,12 @@ def run(ctx: lib.Ctx) -> None:
             violate('registry keys differ from the Tezos expression hashes of the registered expressions',
                     {'history': [list(o) for o in ops], 'registry': sorted(final), 'expected': sorted(s_reg)})
 
-    bad = ctx.coq_mismatches('hist', IMPORTS, 'chk', 'chk_eqb', 'hist', 'list (rres node) * list (option node)', cases,
-                             prelude=PRELUDE, shard=ctx.n(40, 200))
+    eval_error = None
+    try:
+        bad = ctx.coq_mismatches('hist', IMPORTS, 'chk', 'chk_eqb', 'hist', 'list (rres node) * list (option node)', cases,
+                                 prelude=PRELUDE, shard=ctx.n(45, 120))
+    except lib.InternalError as e:   # never crash on what a modified implementation produced
+        bad, eval_error = [], str(e)[-1500:]
 
     # ---- ContractInterface.from_micheline: expansion in type, code and data positions of a real script
     from pytezos.contract.interface import ContractInterface
@@ -378,11 +382,14 @@ def run(ctx: lib.Ctx) -> None:
                      'repro': 'ContractInterface.from_micheline(script, context).context.script["code"]'})
         reg_lit = clist('(' + chex(k.encode()) + ', ' + cnode(lib.canon_micheline(v)) + ')' for k, v in regs.items())
         ci_cases.append((f'({reg_lit}, {cnode(lib.canon_micheline(script))})', rres_lit(*got)))
-    bad_ci = ctx.coq_mismatches('ci', IMPORTS, 'chk0', 'rres_node_eqb', 'registry * node', 'rres node', ci_cases, prelude=PRELUDE)
+    try:
+        bad_ci = ctx.coq_mismatches('ci', IMPORTS, 'chk0', 'rres_node_eqb', 'registry * node', 'rres node', ci_cases, prelude=PRELUDE)
+    except lib.InternalError as e:   # never crash on what a modified implementation produced
+        bad_ci, eval_error = [], str(e)[-1500:]
 
     ctx.extra['histories'] = len(cases)
-    if violations == 0 and (bad or bad_ci):
-        rep = {'correspondence': 'C33/ExecutionContext.register_global_constant+resolve_global_constants+reset vs Michelson.Constants.run',
+    if violations == 0 and (bad or bad_ci or eval_error):
+        rep = {'correspondence': 'C33/ExecutionContext.register_global_constant+resolve_global_constants+reset vs Michelson.Constants.run', 'model_evaluation_error': eval_error,
                'disagreements': len(bad) + len(bad_ci)}
         if bad:
             i = min(bad, key=lambda j: len(cases[j][0]))
